@@ -2076,7 +2076,7 @@ func NegateVal(operand Value) Value {
 	if operand.IsReference() {
 		switch o := operand.AsReference().(type) {
 		case *BigInt:
-			return Ref(o.Negate())
+			return o.Negate().Normalize()
 		case *BigFloat:
 			return Ref(o.Negate())
 		case Float64:
